@@ -12,3 +12,9 @@ func (s *Server) VerifHandleConn(ctx context.Context, conn net.Conn) error { ret
 
 // VerifSetDialer replaces the upstream dialer (the repo's own tests do the same).
 func (s *Server) VerifSetDialer(d func(ctx context.Context, addr string) (net.Conn, error)) { s.dialer = d }
+
+// VerifACLProbe asks the real ACL (acl.go) about one topic: matchPatterns on either list, Allows, AllowShowTopics.
+func VerifACLProbe(allow, deny []string, topic string) (ma, md, allows, show bool) {
+	a := ACL{Allow: allow, Deny: deny}
+	return matchPatterns(allow, topic), matchPatterns(deny, topic), a.Allows(topic), a.AllowShowTopics()
+}
